@@ -24,6 +24,8 @@ REQUIRED_THEOREMS = [
     "SpecVerif.Props.C16.private_never_managed",
     "SpecVerif.Props.C16.no_shadowing",
     "SpecVerif.Props.C16.dissolve_preserves",
+    "SpecVerif.Props.C16.failed_decoration_fails_again",
+    "SpecVerif.Props.C16.lazy_bootstrap_once",
     "SpecVerif.Props.C16.no_parent_shadowing_partial",
     "SpecVerif.Props.C16.inherited_singular_witness",
 ]
@@ -35,7 +37,10 @@ RULE = (
     "classmethod / property / plain value; every attribute-name pair of the word list whose singular/plural forms collide "
     "(the real get_singular_form is harvested over the word list and handed to the model as data), in both orders and as "
     "scalar or collection, plus triples that exhaust the fallback; child classes of a spec-class parent. Each case is "
-    "observed after bootstrap, after first access of 2 single helpers, and after first access of every name. A case is "
+    "observed after bootstrap, after first access of 2 single helpers, after first access of every name, (children) after "
+    "first use of every PARENT helper through the child, and the same class decorated lazily is then used three times in "
+    "a row (instantiation / __spec_class__ / __dataclass_fields__; for decorations expected to fail, one case per ordered "
+    "pair of triggers). A case is "
     "non-trivial when a user entry occupies a generated name, a declaration is consumed, a fallback/RuntimeError/ValueError "
     "occurs or a lazy descriptor dissolves; distinct = distinct (options, body shape, outcome)."
 )
@@ -299,6 +304,9 @@ def model_lines(case):
     lines.append(cls_line(case["cls"], inherit=bool(case.get("parent"))))
     lines += [f"touch {n}" for n in case.get("touch", [])]
     lines.append("touchall")
+    if case.get("parent"):
+        lines.append("touchparent")
+    lines += [f"lazyuse {u}" for u in case.get("uses", [])]
     return lines
 
 
@@ -336,13 +344,13 @@ def real_lines(case):
             out.append("err " + err_name(e))
             parent = None
     cls, dec, users, defaults = build(case["cls"], parent=parent)
-    ntouch = len(case.get("touch", [])) + 1
+    ntouch = len(case.get("touch", [])) + 1 + (1 if case.get("parent") else 0)
     try:
         cls = dec()
     except Exception as e:  # noqa: BLE001
         out.append("err " + err_name(e))
         # the model's dict is empty after an error
-        return out + ["-"] * ntouch
+        return out + ["-"] * ntouch + lazy_use_lines(case, parent)
     shadow, renamed = [], []
     if pinfo:
         helpers, items = pinfo
@@ -374,6 +382,61 @@ def real_lines(case):
         except Exception:  # noqa: BLE001
             pass
     out.append(listing(cls, users, defaults))
+    if parent is not None:
+        touch_inherited(cls, parent)
+        out.append(listing(cls, users, defaults))
+    return out + lazy_use_lines(case, parent)
+
+
+def touch_inherited(cls, parent):
+    """First use, THROUGH THE CHILD, of every helper the parent classes registered (class and instance access,
+    the way `super().with_x(...)` inside an overriding method reaches them)."""
+    try:
+        inst = cls.__new__(cls)
+    except Exception:  # noqa: BLE001
+        inst = None
+    for klass in cls.__mro__[1:]:
+        for n in list(getattr(klass, "__dict__", {})):
+            if n in PY_KEYS or n.startswith("__"):
+                continue
+            for target in (cls, inst):
+                if target is None:
+                    continue
+                try:
+                    getattr(super(cls, target), n)
+                except Exception:  # noqa: BLE001
+                    pass
+
+
+USES = ("new", "meta", "fields")
+
+
+def do_use(cls, u):
+    if u == "new":
+        cls.__new__(cls)
+    elif u == "meta":
+        cls.__spec_class__  # noqa: B018
+    else:
+        cls.__dataclass_fields__  # noqa: B018
+
+
+def lazy_use_lines(case, parent):
+    """The same class decorated WITHOUT bootstrap=True, then used `uses` times in a row."""
+    uses = case.get("uses", [])
+    if not uses:
+        return []
+    _, dec, _, _ = build(case["cls"], parent=parent, bootstrap=False)
+    try:
+        cls = dec()
+    except Exception as e:  # noqa: BLE001  (the decorator itself refuses: there is no class to use)
+        return ["err " + err_name(e)] * len(uses)
+    out = []
+    for u in uses:
+        try:
+            do_use(cls, u)
+            out.append("ok")
+        except Exception as e:  # noqa: BLE001
+            out.append("err " + err_name(e))
     return out
 
 
@@ -488,6 +551,25 @@ def oracle_mode(case, lazy):
             viol.append(f"[{tag}] decoration raised {got}; the documented rule gives a well-defined helper set")
         elif got != exp_err:
             viol.append(f"[{tag}] decoration raised {got}, expected {exp_err}")
+        elif lazy and exp_err == "RuntimeError":
+            # "raises rather than shadowing": it must raise on EVERY use, never hand out a half-built class
+            for seq in itertools.product(USES, repeat=2):
+                seq = seq + (USES[(USES.index(seq[0]) + 1) % 3],)
+                _, dec2, _, _ = build(desc, parent=parent, bootstrap=False)
+                c2 = dec2()
+                for i, u in enumerate(seq):
+                    try:
+                        do_use(c2, u)
+                        viol.append(f"[lazy] uses {seq}: use #{i + 1} ({u}) succeeded on a class whose decoration "
+                                    f"fails (RuntimeError expected every time)")
+                        break
+                    except RuntimeError:
+                        pass
+                    except Exception as e2:  # noqa: BLE001
+                        viol.append(f"[lazy] uses {seq}: use #{i + 1} ({u}) raised {err_name(e2)}, not RuntimeError")
+                        break
+                if viol:
+                    break
         return viol
     if exp_err == "RuntimeError":
         viol.append(f"[{tag}] singular-name collision with the <attr>_item fallback also taken, but decoration did not raise")
@@ -586,6 +668,14 @@ def oracle_mode(case, lazy):
         except Exception:  # noqa: BLE001
             pass
     check("used")
+    if parent is not None:
+        # an overriding method calls `super().with_x(...)`: first use of the PARENT's helper through the child
+        keys_before = list(cls.__dict__)
+        touch_inherited(cls, parent)
+        check("inherited-used")
+        if list(cls.__dict__) != keys_before:
+            viol.append(f"[{tag}/inherited-used] first use of inherited helpers changed the child's own __dict__ keys: "
+                        f"{sorted(set(cls.__dict__) ^ set(keys_before))}")
     from spec_classes.methods.base import MethodDescriptor
 
     for n, v in cls.__dict__.items():
@@ -806,6 +896,14 @@ def inherited_cases(rng, tier):
         (blank(annots=[["values", "L"]], key="name"), blank(annots=[["entries", "D"], ["values", "L"]])),
         (blank(annots=[["foos", "T"]]), blank(annots=[["foos_extra", "S"]], entries=[["with_foo", "fn", 7]])),
     ]
+    # the child defines a name the PARENT generates (the `def with_x(self, v): return super().with_x(v)` shape):
+    # its own entry keeps its identity also after the parent's helper was first used through the child
+    par = blank(annots=[["x", "S"], ["values", "L"], ["lookup", "D"]])
+    for g in ["with_x", "update_x", "reset_x", "with_value", "without_value", "transform_lookup_item", "update", "reset",
+              "__init__", "__eq__"]:
+        for k, i in (OCCUPANTS if tier == "thorough" else OCCUPANTS[:1] + [rng.choice(OCCUPANTS[1:])]):
+            stable.append((par, blank(annots=[["extra", "S"]], entries=[[g, k, i if i != 90 else 91]])))
+    stable.append((par, blank(annots=[], entries=[["with_x", "fn", 92], ["with_value", "pr", 93]])))
     for p, c in stable:
         yield p, c, "inherit:stable"
     unstable = []
@@ -819,7 +917,32 @@ def inherited_cases(rng, tier):
         yield p, c, "inherit:singular"
 
 
+def with_uses(case, rng, tier):
+    """The case itself (3 uses of the lazily decorated class), and — when decoration is expected to fail with
+    RuntimeError — one case per ordered pair of triggers (+ a third use)."""
+    err, _, _ = documented(case["cls"]) if not case.get("parent") else (None, None, None)
+    if case.get("parent"):
+        yield case
+        return
+    if err == "RuntimeError":
+        pairs = list(itertools.product(USES, repeat=2))
+        if tier == "quick":
+            pairs = rng.sample(pairs, 3)
+        for a, b in pairs:
+            yield {**case, "uses": [a, b, rng.choice(USES)]}
+    else:
+        yield {**case, "uses": [rng.choice(USES) for _ in range(3)]}
+
+
 def gen_cases(tier, rng):
+    for case in gen_cases0(tier, rng):
+        if tier == "search":
+            yield case
+        else:
+            yield from with_uses(case, rng, tier)
+
+
+def gen_cases0(tier, rng):
     if tier == "search":
         while True:
             d = random_desc(rng)
